@@ -1,3 +1,487 @@
-/-! C10 property theorems — stub (not built yet). -/
+import TTProofs.Lemmas.C10_Lists
+/-!
+# C10 — a sample dimension never mixes samples
+
+The numeric models of the other properties are functions of ONE sample; the only place where the
+implementation picks a reduction by Python logic on shapes is
+`JointDistributionModel.log_prob`, modelled branch by branch in `TTModel/C10_Shapes.lean`
+(`choosePlan`, `applyPlan`, `catSumLast`, `joint`) together with the sample-shape inference
+(`longest`, `containerSampleShape`, `distSampleShape`).  The theorems below hold for ALL sample
+shapes, event shapes and numbers of components, over any commutative additive monoid of values.
+The model is tied to the real class by an exact black-box correspondence (`harness/c10.py`:
+power-of-two sentinel entries reveal which entries were added into which output entry).
+-/
 namespace TTProps.C10
+open TT.C10
+
+variable {α : Type} [AddCommMonoid α]
+
+/-! ## sample-shape inference: "longest leading shape" -/
+
+/-- `max(parts, key=len)`: the inferred sample shape is one of the parts and none is longer -/
+theorem sample_shape_is_longest (parts : List Shape) (h : parts ≠ []) :
+    modelSampleShape parts ∈ parts ∧ ∀ s ∈ parts, s.length ≤ (modelSampleShape parts).length :=
+  ⟨longest_mem parts h, longest_length_max parts⟩
+
+example : modelSampleShape [[], [3], [2]] = [3] := by decide
+
+/-- when every component reports the same sample shape `J`, the joint infers `J` -/
+theorem joint_infers_common_shape (J : Shape) (comps : List (Component α)) (hne : comps ≠ [])
+    (h : ∀ c ∈ comps, c.claimed = J) : jointSampleShape comps = J := by
+  unfold jointSampleShape containerSampleShape
+  have hne' : comps.map (·.claimed) ≠ [] := by simpa using hne
+  have hl : longest (comps.map (·.claimed)) = J :=
+    longest_all_eq J _ hne' (by
+      intro s hs
+      obtain ⟨c, hc, rfl⟩ := List.mem_map.mp hs
+      exact h c hc)
+  have he : (comps.map (·.claimed)).isEmpty = false := by
+    cases comps with
+    | nil => exact absurd rfl hne
+    | cons a l => rfl
+  simp [he, hl]
+
+/-! ## the branch chosen for a well-shaped component -/
+
+/-- a component whose value is `J ++ E` and which reports `J` is unsqueezed (no event axes) or
+flattened and summed from axis `|J|` on — whatever the joint's own sample shape is -/
+theorem choosePlan_batched (J E J' : Shape) :
+    choosePlan (J ++ E) J J' = if E = [] then Plan.unsqueezeLast else Plan.flattenSum J.length := by
+  unfold choosePlan
+  by_cases hE : E = []
+  · simp [hE]
+  · have h1 : J ++ E ≠ J := fun h => hE (append_eq_self_left.mp h)
+    have h2 : J ++ E ≠ [] := by
+      intro h; exact hE (List.append_eq_nil_iff.mp h).2
+    have h3 : (J ++ E).length > J.length := by
+      have : E.length ≠ 0 := fun h => hE (List.eq_nil_of_length_eq_zero h)
+      simp; omega
+    simp [hE, h1, h2, h3]
+
+/-- what a component contributes to sample `s`: the sum of its entries with leading index `s` -/
+def eventSum (J : Shape) (t : Tensor α) (s : List Nat) : α :=
+  ((indices (t.shape.drop J.length)).map fun e => t.get (s ++ e)).sum
+
+/-- the piece built for a well-shaped component has shape `J ++ [1]` and holds, for each sample,
+the sum of that sample's entries only -/
+theorem piece_batched (J E J' : Shape) (t : Tensor α) (ht : t.shape = J ++ E) :
+    ∃ p, applyPlan (choosePlan t.shape J J') J' t = .ok p ∧ p.shape = J ++ [1] ∧
+      ∀ s, s.length = J.length → p.get (s ++ [0]) = eventSum J t s := by
+  rw [ht, choosePlan_batched]
+  by_cases hE : E = []
+  · subst hE
+    refine ⟨⟨t.shape ++ [1], fun i => t.get i.dropLast⟩, by simp [applyPlan], by simp [ht], ?_⟩
+    intro s _
+    simp [eventSum, ht, indices]
+  · refine ⟨sumFrom J.length t, by simp [hE, applyPlan], by simp [sumFrom, ht], ?_⟩
+    intro s hs
+    simp only [sumFrom, eventSum, ht, drop_len_append]
+    rw [take_of_len_append s [0] J.length hs]
+
+/-! ## concatenating and summing pieces of equal shape -/
+
+theorem catSumLast_uniform (J : Shape) (ps : List (Tensor α)) (hne : ps ≠ [])
+    (h : ∀ p ∈ ps, p.shape = J ++ [1]) :
+    ∃ out, catSumLast ps = .ok out ∧ out.shape = J ∧
+      ∀ s, out.get s = (ps.map fun p => p.get (s ++ [0])).sum := by
+  cases ps with
+  | nil => exact absurd rfl hne
+  | cons p rest =>
+    have hp := h p (by simp)
+    have hrest : ∀ q ∈ rest, q.shape = J ++ [1] := fun q hq => h q (by simp [hq])
+    have c1 : ¬ p.shape = [] := by simp [hp]
+    have c2 : ¬ (rest.any (fun q => decide (q.shape.length ≠ p.shape.length)) = true) := by
+      simp only [List.any_eq_true, not_exists, not_and]
+      intro q hq
+      simp [hrest q hq, hp]
+    have c3 : ¬ (rest.any (fun q => decide (q.shape.dropLast ≠ p.shape.dropLast)) = true) := by
+      simp only [List.any_eq_true, not_exists, not_and]
+      intro q hq
+      simp [hrest q hq, hp]
+    refine ⟨⟨p.shape.dropLast, fun s =>
+      ((p :: rest).map fun q => ((List.range (q.shape.getLastD 0)).map fun j => q.get (s ++ [j])).sum).sum⟩,
+      ?_, by simp [hp], ?_⟩
+    · simp only [catSumLast]
+      rw [if_neg c1, if_neg c2, if_neg c3]
+    intro s
+    show ((p :: rest).map fun q => ((List.range (q.shape.getLastD 0)).map fun j => q.get (s ++ [j])).sum).sum = _
+    congr 1
+    apply List.map_congr_left
+    intro q hq
+    have : q.shape = J ++ [1] := h q hq
+    simp [this, List.range_succ]
+
+/-! ## `joint_sums_within_sample` -/
+
+/-- components a joint distribution reduces correctly: value of shape `J ++ E` reporting `J`
+(any event shape `E`, including none), or a one-element value of a component that reports some
+other non-empty sample shape (the `expand` branch: added to every sample) -/
+inductive WellShaped (J : Shape) (c : Component α) : Prop where
+  | batched (E : Shape) (hc : c.claimed = J) (hs : c.value.shape = J ++ E)
+  | constant (hs : c.value.shape = [1]) (hc : c.claimed ≠ [1]) (hl : 1 ≤ c.claimed.length)
+
+/-- what component `c` must add to sample `s` -/
+def contribution (J : Shape) (c : Component α) (s : List Nat) : α :=
+  if c.value.shape = [1] ∧ c.claimed ≠ [1] ∧ 1 ≤ c.claimed.length then c.value.get [0]
+  else eventSum J c.value s
+
+theorem piece_wellshaped (J : Shape) (c : Component α) (h : WellShaped J c) :
+    ∃ p, applyPlan (choosePlan c.value.shape c.claimed J) J c.value = .ok p ∧ p.shape = J ++ [1] ∧
+      ∀ s, s.length = J.length → p.get (s ++ [0]) = contribution J c s := by
+  cases h with
+  | batched E hc hs =>
+    obtain ⟨p, h1, h2, h3⟩ := piece_batched J E J c.value hs
+    refine ⟨p, by rw [hc]; exact h1, h2, ?_⟩
+    intro s hl
+    rw [h3 s hl]
+    unfold contribution
+    have : ¬ (c.value.shape = [1] ∧ c.claimed ≠ [1] ∧ 1 ≤ c.claimed.length) := by
+      rintro ⟨a, b, d⟩
+      rw [hc] at b d
+      rw [hs] at a
+      -- J ++ E = [1] with J nonempty forces J = [1]
+      cases J with
+      | nil => simp at d
+      | cons x xs =>
+        cases xs with
+        | nil => simp at a; exact b (by simp [a.1])
+        | cons y ys => simp at a
+    simp [this]
+  | constant hs hc hl =>
+    have hplan : choosePlan c.value.shape c.claimed J = Plan.expand := by
+      unfold choosePlan
+      have h1 : ([1] : Shape) ≠ c.claimed := fun h => hc h.symm
+      have h3 : ¬ (1 > c.claimed.length) := by omega
+      simp [hs, h1, h3]
+    refine ⟨⟨J ++ [1], fun _ => c.value.get [0]⟩, by rw [hplan]; simp [applyPlan, hs], rfl, ?_⟩
+    intro s _
+    simp [contribution, hs, hc, hl]
+
+theorem mapM_ok {β γ : Type} (f : β → Except Err γ) (P : β → γ → Prop) :
+    ∀ (l : List β), (∀ c ∈ l, ∃ p, f c = .ok p ∧ P c p) →
+      ∃ ps, l.mapM f = .ok ps ∧ List.Forall₂ P l ps
+  | [], _ => ⟨[], by simp [pure, Except.pure], List.Forall₂.nil⟩
+  | c :: l, h => by
+    obtain ⟨p, hp, hP⟩ := h c (by simp)
+    obtain ⟨ps, hps, hF⟩ := mapM_ok f P l (fun c hc => h c (by simp [hc]))
+    refine ⟨p :: ps, ?_, List.Forall₂.cons hP hF⟩
+    simp [List.mapM_cons, hp, hps, bind, Except.bind, pure, Except.pure]
+
+theorem forall2_right {β γ : Type} {P : β → γ → Prop} {Q : γ → Prop} {l : List β} {ps : List γ}
+    (hF : List.Forall₂ P l ps) (h : ∀ a b, P a b → Q b) : ∀ b ∈ ps, Q b := by
+  induction hF with
+  | nil => intro b hb; simp at hb
+  | cons hab _ ih =>
+    intro b hb
+    rcases List.mem_cons.mp hb with rfl | hb'
+    · exact h _ _ hab
+    · exact ih b hb'
+
+theorem forall2_sum {β γ : Type} {f : γ → α} {g : β → α} {l : List β} {ps : List γ}
+    (hF : List.Forall₂ (fun a b => f b = g a) l ps) : (ps.map f).sum = (l.map g).sum := by
+  induction hF with
+  | nil => rfl
+  | cons hab _ ih => simp [hab, ih]
+
+/-- **joint_sums_within_sample** (given the joint's sample shape `J`): for any number of
+well-shaped components — every sample shape `J`, every event shape — the joint log-density
+evaluates without error, has shape `J`, and its entry for sample `s` is the sum over components of
+that component's entries belonging to sample `s` (one-element components are added to every
+sample). No entry of another sample enters. -/
+theorem jointWith_sums_within_sample (J : Shape) (comps : List (Component α)) (hne : comps ≠ [])
+    (h : ∀ c ∈ comps, WellShaped J c) :
+    ∃ out, jointWith J comps = .ok out ∧ out.shape = J ∧
+      ∀ s, s.length = J.length → out.get s = (comps.map fun c => contribution J c s).sum := by
+  obtain ⟨ps, hps, hF⟩ := mapM_ok
+    (fun c => applyPlan (choosePlan c.value.shape c.claimed J) J c.value)
+    (fun c p => p.shape = J ++ [1] ∧ ∀ s, s.length = J.length → p.get (s ++ [0]) = contribution J c s)
+    comps (fun c hc => piece_wellshaped J c (h c hc))
+  have hpsne : ps ≠ [] := by
+    intro he; subst he
+    cases hF
+    exact hne rfl
+  have hshape : ∀ p ∈ ps, p.shape = J ++ [1] := forall2_right hF (fun _ _ h => h.1)
+  obtain ⟨out, hout, hsh, hget⟩ := catSumLast_uniform J ps hpsne hshape
+  refine ⟨out, by simp [jointWith, hps, hout, bind, Except.bind], hsh, ?_⟩
+  intro s hs
+  rw [hget s]
+  exact forall2_sum (f := fun p => p.get (s ++ [0])) (g := fun c => contribution J c s)
+    (hF.imp (fun _ _ h => h.2 s hs))
+
+/-- **joint_sums_within_sample**: `JointDistributionModel.log_prob` with its own inferred sample
+shape, when every component's value has shape `sampleShape ++ eventDims` and reports `sampleShape`:
+`joint[s] = Σ_components Σ_events component[s, event]`, for all sample shapes and event shapes. -/
+theorem joint_sums_within_sample (J : Shape) (comps : List (Component α)) (hne : comps ≠ [])
+    (h : ∀ c ∈ comps, c.claimed = J ∧ ∃ E, c.value.shape = J ++ E) :
+    ∃ out, joint comps = .ok out ∧ out.shape = J ∧
+      ∀ s, s.length = J.length → out.get s = (comps.map fun c => eventSum J c.value s).sum := by
+  have hJ : jointSampleShape comps = J := joint_infers_common_shape J comps hne (fun c hc => (h c hc).1)
+  obtain ⟨out, h1, h2, h3⟩ := jointWith_sums_within_sample J comps hne
+    (fun c hc => by obtain ⟨a, E, b⟩ := h c hc; exact WellShaped.batched E a b)
+  refine ⟨out, by simpa [joint, hJ] using h1, h2, ?_⟩
+  intro s hs
+  rw [h3 s hs]
+  congr 1
+  apply List.map_congr_left
+  intro c hc
+  obtain ⟨a, E, b⟩ := h c hc
+  unfold contribution
+  have : ¬ (c.value.shape = [1] ∧ c.claimed ≠ [1] ∧ 1 ≤ c.claimed.length) := by
+    rintro ⟨x, y, z⟩
+    rw [a] at y z
+    rw [b] at x
+    cases J with
+    | nil => simp at z
+    | cons u us =>
+      cases us with
+      | nil => simp at x; exact y (by simp [x.1])
+      | cons v vs => simp at x
+  simp [this]
+
+/-- the hypotheses are met by a non-trivial instance: two samples, one component with a 3-element
+event axis and one without; the joint adds `10+11+12+1` for sample 0 and `20+21+22+2` for sample 1 -/
+example :
+    let a : Component Nat := ⟨⟨[2, 3], fun i => 10 * (i.getD 0 0 + 1) + i.getD 1 0⟩, [2]⟩
+    let b : Component Nat := ⟨⟨[2], fun i => i.getD 0 0 + 1⟩, [2]⟩
+    (match joint [a, b] with
+      | .ok out => (out.shape, out.get [0], out.get [1])
+      | .error _ => ([], 0, 0)) = ([2], 34, 65) := by
+  decide
+
+/-! ## `plan_total`: every other shape combination -/
+
+theorem cut_le (L C : Shape) : cut L C ≤ L.length := by
+  unfold cut
+  split
+  · omega
+  · split
+    · omega
+    · split <;> omega
+
+/-- **piece_spec**: whatever the three shapes are, every branch other than `expand`/`squeeze0`
+keeps the first `cut L C` axes and adds up ALL entries behind them:
+the piece has shape `L[:cut] ++ [1]` and `piece[s, 0] = Σ_e lp[s ++ e]`. -/
+theorem piece_spec (L C J : Shape) (t : Tensor α) (ht : t.shape = L)
+    (h1 : choosePlan L C J ≠ Plan.expand) (h2 : choosePlan L C J ≠ Plan.squeeze0) :
+    ∃ p, applyPlan (choosePlan L C J) J t = .ok p ∧ p.shape = L.take (cut L C) ++ [1] ∧
+      ∀ s, s.length = cut L C →
+        p.get (s ++ [0]) = ((indices (L.drop (cut L C))).map fun e => t.get (s ++ e)).sum := by
+  by_cases a : L = C
+  · have hp : choosePlan L C J = Plan.unsqueezeLast := by simp [choosePlan, a]
+    have hc : cut L C = L.length := by simp [cut, a]
+    rw [hp, hc]
+    refine ⟨⟨t.shape ++ [1], fun i => t.get i.dropLast⟩, rfl, by simp [ht], ?_⟩
+    intro s _
+    simp [indices]
+  · by_cases b : L = []
+    · subst b
+      have hp : choosePlan [] C J = Plan.unsqueeze0 := by simp [choosePlan, a]
+      have hc : cut [] C = 0 := by simp [cut, a]
+      rw [hp, hc]
+      refine ⟨⟨1 :: t.shape, fun i => t.get i.tail⟩, rfl, by simp [ht], ?_⟩
+      intro s hs
+      have : s = [] := List.eq_nil_of_length_eq_zero hs
+      subst this
+      simp [indices]
+    · by_cases c : L.length > C.length
+      · have hp : choosePlan L C J = Plan.flattenSum C.length := by simp [choosePlan, a, b, c]
+        have hc : cut L C = C.length := by simp [cut, a, b, c]
+        rw [hp, hc]
+        refine ⟨sumFrom C.length t, rfl, by simp [sumFrom, ht], ?_⟩
+        intro s hs
+        simp only [sumFrom, ht]
+        rw [take_of_len_append s [0] C.length hs]
+      · have hc : cut L C = L.length - 1 := by simp [cut, a, b, c]
+        by_cases d : L.getLast? = some 1
+        · by_cases e : L.length = 1
+          · exact absurd (by
+              unfold choosePlan
+              rw [if_neg a, if_neg b, if_neg c, if_neg (not_not.mpr d), if_pos e]) h1
+          · by_cases f : L.length > 1 ∧ J.length = 0
+            · exact absurd (by
+                unfold choosePlan
+                rw [if_neg a, if_neg b, if_neg c, if_neg (not_not.mpr d), if_neg e, if_pos f]) h2
+            · have hp : choosePlan L C J = Plan.keep := by
+                unfold choosePlan
+                rw [if_neg a, if_neg b, if_neg c, if_neg (not_not.mpr d), if_neg e, if_neg f]
+              rw [hp, hc]
+              -- keep: the last axis has size 1, so `L = L[:-1] ++ [1]` and summing it is the identity
+              have hL : L = L.dropLast ++ [1] := (List.dropLast_append_getLast? 1 (by simpa using d)).symm
+              have hlen : L.length - 1 = L.dropLast.length := by simp
+              refine ⟨t, rfl, ?_, ?_⟩
+              · rw [ht, ← List.dropLast_eq_take]; exact hL
+              · intro s _
+                have hd : L.drop (L.length - 1) = [1] := by
+                  rw [hlen]
+                  conv_lhs => rw [hL]
+                  simp
+                rw [hd, indices_one]
+                simp
+        · have hp : choosePlan L C J = Plan.sumLast := by
+            unfold choosePlan
+            rw [if_neg a, if_neg b, if_neg c, if_pos d]
+          rw [hp, hc]
+          refine ⟨sumFrom (t.shape.length - 1) t, rfl, by simp [sumFrom, ht], ?_⟩
+          intro s hs
+          simp only [sumFrom, ht]
+          rw [take_of_len_append s [0] (L.length - 1) hs]
+
+/-- **plan_total (no silent mixing next to a correctly shaped component)**: put ANY component
+(value shape `L`, reported shape `C`, not the one-element `expand` case, `squeeze0` being
+unreachable) into a joint next to one well-shaped component. Either the joint raises (shape
+mismatch in `torch.cat`), or the component's value really has the form `J ++ E` and it contributes
+to sample `s` exactly the sum of its own entries with leading index `s`. A number mixing samples
+is never returned. -/
+theorem plan_total (J : Shape) (g c : Component α) (hg : WellShaped J g)
+    (h1 : choosePlan c.value.shape c.claimed J ≠ Plan.expand)
+    (h2 : choosePlan c.value.shape c.claimed J ≠ Plan.squeeze0) :
+    (∃ e, jointWith J [g, c] = .error e) ∨
+    (∃ out E, jointWith J [g, c] = .ok out ∧ c.value.shape = J ++ E ∧ out.shape = J ∧
+      ∀ s, s.length = J.length → out.get s = contribution J g s + eventSum J c.value s) := by
+  obtain ⟨pg, hpg, hgs, hgv⟩ := piece_wellshaped J g hg
+  obtain ⟨pc, hpc, hcs, hcv⟩ := piece_spec c.value.shape c.claimed J c.value rfl h1 h2
+  have hj : jointWith J [g, c] = catSumLast [pg, pc] := by
+    simp [jointWith, List.mapM_cons, hpg, hpc, bind, Except.bind, pure, Except.pure]
+  rw [hj]
+  by_cases hsame : pc.shape = J ++ [1]
+  · right
+    have hcutJ : (c.value.shape.take (cut c.value.shape c.claimed)) = J := by
+      rw [hcs] at hsame
+      exact List.append_cancel_right hsame
+    have hcut : cut c.value.shape c.claimed = J.length := by
+      have := congrArg List.length hcutJ
+      have hle := cut_le c.value.shape c.claimed
+      simp at this
+      omega
+    obtain ⟨out, hout, hsh, hget⟩ := catSumLast_uniform J [pg, pc] (by simp)
+      (by intro p hp; simp at hp; rcases hp with rfl | rfl <;> assumption)
+    refine ⟨out, c.value.shape.drop J.length, hout, ?_, hsh, ?_⟩
+    · rw [← hcut]
+      conv_lhs => rw [← List.take_append_drop (cut c.value.shape c.claimed) c.value.shape]
+      rw [hcutJ]
+    · intro s hs
+      rw [hget s]
+      simp only [List.map_cons, List.map_nil, List.sum_cons, List.sum_nil, add_zero]
+      rw [hgv s hs, hcv s (by omega), hcut]
+      rfl
+  · left
+    have hA : ¬ pg.shape = [] := by simp [hgs]
+    simp only [catSumLast]
+    rw [if_neg hA]
+    by_cases hlen : pc.shape.length = pg.shape.length
+    · have hB : ¬ (([pc].any fun q => decide (q.shape.length ≠ pg.shape.length)) = true) := by
+        simp [hlen]
+      have hC : ([pc].any fun q => decide (q.shape.dropLast ≠ pg.shape.dropLast)) = true := by
+        simp only [List.any_cons, List.any_nil, Bool.or_false, decide_eq_true_eq]
+        intro hd
+        apply hsame
+        -- same leading axes; the last axis of `pc` is 1 by `piece_spec`
+        rw [hcs, hgs] at hd
+        rw [hcs]
+        simp at hd
+        rw [hd]
+      refine ⟨Err.catSize, ?_⟩
+      rw [if_neg hB, if_pos hC]
+    · have hB : ([pc].any fun q => decide (q.shape.length ≠ pg.shape.length)) = true := by
+        simp [hlen]
+      refine ⟨Err.catNdim, ?_⟩
+      rw [if_pos hB]
+
+/-- `squeeze0` needs the joint's sample shape to be empty while the component reports a longer
+one: inside a joint, whose sample shape is the longest reported shape, it is never taken -/
+theorem squeeze0_unreachable (L C J : Shape) (h : C.length ≤ J.length) :
+    choosePlan L C J ≠ Plan.squeeze0 := by
+  unfold choosePlan
+  split
+  · simp
+  · split
+    · simp
+    · split
+      · simp
+      · split
+        · simp
+        · split
+          · simp
+          · split
+            · rename_i h3 _ _ h6
+              omega
+            · simp
+
+/-- the joint's sample shape is at least as long as every reported shape -/
+theorem claimed_le_joint (comps : List (Component α)) (c : Component α) (hc : c ∈ comps) :
+    c.claimed.length ≤ (jointSampleShape comps).length := by
+  unfold jointSampleShape containerSampleShape
+  have hne : (comps.map (·.claimed)).isEmpty = false := by
+    cases comps with
+    | nil => simp at hc
+    | cons a l => rfl
+  have := longest_length_max (comps.map (·.claimed)) c.claimed (List.mem_map.mpr ⟨c, hc, rfl⟩)
+  simp [hne]
+  exact this
+
+/-- **the finite description of what can mix**: for a value `J' ++ E` (its true sample axes `J'`)
+reduced alone — i.e. when nothing next to it forces the right shape — an output entry adds up
+different samples (`cut < |J'|`) exactly in these shape coincidences: the reported shape differs
+from the value's shape, there is a sample axis, and either the reported shape is shorter than the
+true one (flatten-and-sum starts inside the sample axes) or the value has no event axis and the
+reported shape is at least as long (the last sample axis is summed as if it were the event axis). -/
+theorem mixes_iff (J' E C : Shape) :
+    cut (J' ++ E) C < J'.length ↔
+      (J' ++ E ≠ C ∧ J' ≠ [] ∧ (C.length < J'.length ∨ (E = [] ∧ J'.length ≤ C.length))) := by
+  unfold cut
+  by_cases a : J' ++ E = C
+  · simp [a]
+    subst a
+    simp
+  · by_cases b : J' ++ E = []
+    · have : J' = [] := (List.append_eq_nil_iff.mp b).1
+      simp [a, b, this]
+    · by_cases c : (J' ++ E).length > C.length
+      · simp only [a, b, c, if_true, if_false]
+        constructor
+        · intro h
+          refine ⟨by simpa using a, ?_, Or.inl h⟩
+          intro hn; subst hn; simp at h
+        · rintro ⟨_, _, h | ⟨hE, h⟩⟩
+          · exact h
+          · subst hE; simp at c; omega
+      · simp only [a, b, c, if_false]
+        have hlen : (J' ++ E).length = J'.length + E.length := by simp
+        constructor
+        · intro h
+          have hE : E = [] := List.eq_nil_of_length_eq_zero (by omega)
+          refine ⟨by simpa using a, ?_, Or.inr ⟨hE, ?_⟩⟩
+          · intro hn; subst hn; subst hE; simp at b
+          · subst hE; simp at c; exact c
+        · rintro ⟨_, hJ, h | ⟨hE, h⟩⟩
+          · omega
+          · subst hE
+            have : J'.length ≠ 0 := fun h0 => hJ (List.eq_nil_of_length_eq_zero h0)
+            simp; omega
+
+/-- `classify` (what the driver reports to the harness for every enumerated triple) says `mixes`
+exactly when `cut` falls inside the sample axes -/
+theorem classify_mixes_iff (L C J : Shape) (n : Nat)
+    (h1 : choosePlan L C J ≠ Plan.expand) (h2 : choosePlan L C J ≠ Plan.squeeze0) :
+    classify L C J n = Verdict.mixes ↔ cut L C < n := by
+  unfold classify
+  split
+  · exact absurd (by assumption) h1
+  · exact absurd (by assumption) h2
+  · by_cases a : cut L C = n
+    · simp [a]
+    · by_cases b : cut L C < n
+      · simp [a, b]
+      · simp [a, b]
+
+/-- a mixing witness on the model (the GMRF-precision situation found on the implementation: the
+value carries two samples, the component reports no sample axis): the joint returns ONE number,
+the sum over both samples -/
+example :
+    let c : Component Nat := ⟨⟨[2, 1], fun i => 5 + i.getD 0 0⟩, []⟩
+    (match joint [c] with
+      | .ok out => (out.shape, out.get [])
+      | .error _ => ([7], 0)) = ([], 11) ∧ classify [2, 1] [] [] 1 = Verdict.mixes := by
+  decide
+
 end TTProps.C10
